@@ -66,6 +66,7 @@ type Cfg struct {
 	Faults           bool
 	DelayFaults      bool
 	BootFaults       bool
+	MaxReplyDelay    time.Duration // with delay faults: longest time a request may wait before the clock is held (0 = unbounded)
 	Extra            map[string]string
 
 	W Weights
